@@ -258,9 +258,25 @@ static void __attribute__((destructor)) after_exit(void) {
   ev_end(); ev_flush();
 }
 
+static volatile var* g_edge;
+static int __attribute__((noinline)) real_main(int argc, char** argv);
+/* the program's outermost frame holds one root slot of its own: it lies within a few words of the stack bottom the
+   collector was given (programs keep their long-lived variables in main) */
 int main(int argc, char** argv) {
-  volatile var roots[32];
-  for (int i = 0; i < 32; i++) roots[i] = NULL;
+  volatile var edge_slot[2] = { NULL, NULL };
+  g_edge = &edge_slot[1] > &edge_slot[0] ? &edge_slot[1] : &edge_slot[0];
+  int rc = real_main(argc, argv);
+  edge_slot[0] = edge_slot[1] = NULL;
+  return rc;
+}
+static int __attribute__((noinline)) real_main(int argc, char** argv) {
+  /* stack roots: slots 0..31; slot 1 is redirected to the local closest to the stack bottom the collector was given
+     (main's frame is where programs keep their long-lived variables: the scan must reach all the way down) */
+  volatile var roots_a[48]; volatile var roots_b[48];
+  volatile var* roots = roots_a;
+  for (int i = 0; i < 48; i++) { roots_a[i] = NULL; roots_b[i] = NULL; }
+  volatile var* edge = g_edge;
+#define ROOTSLOT(i) (*((i) == 1 ? edge : &roots[i]))
   if (argc < 2) { fprintf(stderr, "usage: h_gc script [out]\n"); return 9; }
   hc_noaslr(argv);
   FILE* f = fopen(argv[1], "r"); if (!f) { perror(argv[1]); return 9; }
@@ -321,7 +337,7 @@ int main(int argc, char** argv) {
     } else if (hc_is(0, "root")) {
       int slot = (int)hc_int(1), id = (int)hc_int(2);
       if (slot < 0 || slot >= 32) { fprintf(stderr, "bad root slot\n"); return 9; }
-      roots[slot] = id ? P(id) : NULL;
+      ROOTSLOT(slot) = id ? P(id) : NULL;
       observe("root", slot, id, 0, "");
     } else if (hc_is(0, "tls")) {
       int k = (int)hc_int(1), id = (int)hc_int(2);
@@ -335,7 +351,7 @@ int main(int argc, char** argv) {
       observe("untls", k, 0, 0, hc_exc);
     } else if (hc_is(0, "del")) {
       int id = (int)hc_int(1);
-      for (int i = 0; i < 32; i++) if (roots[i] == P(id)) roots[i] = NULL;
+      for (int i = 0; i < 32; i++) if (ROOTSLOT(i) == P(id)) ROOTSLOT(i) = NULL;
       deleted_now[ndeleted++] = id;
       for (int k = 2; k < hc_nw && ndeleted < 60; k++) deleted_now[ndeleted++] = hc_int(k);    /* what it owns (Box pointees) */
       if (tab[id].mode == 0) HC_TRY(del(P(id))); else if (tab[id].mode == 1) HC_TRY(del_root(P(id))); else HC_TRY(del_raw(P(id)));
@@ -380,7 +396,7 @@ int main(int argc, char** argv) {
     ev_flush();
   }
   alarm(0);
-  for (int i = 0; i < 32; i++) roots[i] = NULL;
+  for (int i = 0; i < 32; i++) ROOTSLOT(i) = NULL;
   ev_begin("end"); ev_int("line", cur_line); ev_end();
   ev_flush();
   return 0;
